@@ -107,6 +107,9 @@ fn account(st: &mut Stats, w: &World, e: &Exec, c19_set: &mut HashSet<u64>, c09_
     st.add("model.memo_hits", e.model.memo_hits);
     st.add("model.out_of_fuel", e.model.out_of_fuel);
     st.add("model.steps", e.model.steps);
+    st.add("model.pristine_queries", e.model.pristine_queries);
+    st.add("model.pristine_unknown", e.model.pristine_unknown);
+    st.add("probes.pristine_oracle_worlds", w.knobs.pristine as u64);
     let dup = w.regexes.iter().any(|r| {
         let p = &r.pattern;
         ["x", "y", "n"].iter().any(|n| p.matches(&format!("(?<{}>", n)).count() >= 2)
@@ -249,7 +252,9 @@ fn cmd_worker(args: &[String]) -> i32 {
         for p in ["C19", "C09"] {
             if let Some(v) = e.viols.iter().find(|v| v.property == p) {
                 if nviol < max_viol || p == prop {
-                    let f = violation_file(&w, &e, v, seed, run, &prop);
+                    let mut f = violation_file(&w, &e, v, seed, run, &prop);
+                    // which worlds this process executed before this one (process-global residue)
+                    f.put("worker", J::obj().set("first", J::u(first)).set("stride", J::u(stride)));
                     let _ = std::fs::write(format!("{}.viol-{}-{}.json", out, p, run), f.to_pretty());
                     nviol += 1;
                 }
@@ -311,8 +316,21 @@ fn cmd_replay(args: &[String]) -> i32 {
     }
     let prop = j.get("property").and_then(|v| v.as_str()).unwrap_or("").to_string();
     let clause = j.get("clause").and_then(|v| v.as_str()).unwrap_or("").to_string();
+    // Process-global residue: first re-execute the worlds that ran earlier in the same process.
+    let prefix = prefix_runs(&j);
+    if !prefix.is_empty() {
+        let seed = j.get("seed").and_then(|v| v.as_u64()).unwrap_or(1);
+        let profile = profile_of(j.get("profile").and_then(|v| v.as_str()).unwrap_or("C19"));
+        for r in &prefix {
+            let pw = gen_world(seed, *r, profile);
+            let _ = execute(&pw, None);
+        }
+    }
     let e = execute(&w, Some(&s));
     let verbose = !args.iter().any(|a| a == "--quiet");
+    if verbose && !prefix.is_empty() {
+        println!("(executed {} earlier worlds of the same process first: {:?}{})", prefix.len(), &prefix[..prefix.len().min(8)], if prefix.len() > 8 { " ..." } else { "" });
+    }
     let hit: Vec<_> = e.viols.iter().filter(|v| v.property == prop && v.clause == clause).collect();
     if verbose {
         println!("replay {}: property={} clause={} threads={} ops={} schedule_segments={}", path, prop, clause, w.threads.len(), w.nops(), s.len());
@@ -334,6 +352,28 @@ fn cmd_replay(args: &[String]) -> i32 {
     }
 }
 
+/// The earlier worlds to execute first, from a replay file's "prefix" member:
+/// {"runs":[...]} (explicit) or {"first":k,"stride":s,"upto":run} (arithmetic).
+fn prefix_runs(j: &J) -> Vec<u64> {
+    let p = match j.get("prefix") {
+        Some(p) => p,
+        None => return Vec::new(),
+    };
+    if let Some(a) = p.get("runs").and_then(|v| v.as_arr()) {
+        return a.iter().filter_map(|v| v.as_u64()).collect();
+    }
+    let first = p.get("first").and_then(|v| v.as_u64()).unwrap_or(0);
+    let stride = p.get("stride").and_then(|v| v.as_u64()).unwrap_or(1).max(1);
+    let upto = p.get("upto").and_then(|v| v.as_u64()).unwrap_or(0);
+    let mut out = Vec::new();
+    let mut r = first;
+    while r < upto {
+        out.push(r);
+        r += stride;
+    }
+    out
+}
+
 fn cmd_shrink(args: &[String]) -> i32 {
     let (inp, outp) = match (args.get(2), args.get(3)) {
         (Some(a), Some(b)) => (a, b),
@@ -352,6 +392,10 @@ fn cmd_shrink(args: &[String]) -> i32 {
     };
     let prop = j.get("property").and_then(|v| v.as_str()).unwrap_or("").to_string();
     let clause = j.get("clause").and_then(|v| v.as_str()).unwrap_or("").to_string();
+    if !prefix_runs(&j).is_empty() {
+        println!("shrink: file depends on earlier worlds of its process; the driver minimises the prefix instead");
+        return 3;
+    }
     let mut sh = Shrinker { target: Target { property: prop.clone(), clause: clause.clone() }, evals: 0, max_evals: arg_u64(args, "--max-evals", 3000) as u32 };
     if !sh.fails(&w, &s) {
         println!("shrink: input does not reproduce in-process");
@@ -389,6 +433,10 @@ fn cmd_gen(args: &[String]) -> i32 {
 
 fn main() {
     let args: Vec<String> = std::env::args().collect();
+    // fork the pristine-oracle zygote while this process is single-threaded and has run no regress code
+    if matches!(args.get(1).map(|s| s.as_str()), Some("worker") | Some("replay") | Some("shrink") | Some("gen")) && std::env::var("VERIF_NO_PRISTINE").is_err() {
+        simcore::pristine::start(simcore::run::pristine_handler);
+    }
     let code = match args.get(1).map(|s| s.as_str()) {
         Some("worker") => cmd_worker(&args),
         Some("replay") => cmd_replay(&args),
